@@ -432,8 +432,7 @@ def main(argv=None):
             continue
         print("  [%s] %d instance(s); first: %s" % (sig, b["count"], ex["msg"][:600]))
         print("VIOLATION property=%s replay=%s" % (check.ID, path))
-        if status == 0:
-            status = 1
+        status = 1                     # a confirmed, replayed violation decides the exit status
     seen_known = collections.Counter()
     for (sig, name), b in acc.buckets.items():
         if name is not None:
